@@ -154,7 +154,7 @@ def run(ctx):
             for l in literals(e, Re, i):
                 if l[0] == 'true' and cmp_field(l[1]):
                     fields.add(cmp_field(l[1]))
-        if good and fields == {'mat', 'bias'}:
+        if good and fields - {'_phantom'} == {'mat', 'bias'}:   # a derived impl also compares the zero-sized marker field
             ctx.ok('C08.R2', e.qname, 'eq = (mat == mat) && (bias == bias)', e.span)
         else:
             ctx.bad('C08.R2', e.qname, 'equality of affine functions does not compare both the matrix and the bias (compared: %s)' % sorted(fields), e.span)
